@@ -4,6 +4,7 @@
 package sim
 
 import (
+	"bytes"
 	"errors"
 	"fmt"
 	"io"
@@ -96,7 +97,10 @@ type Chan struct {
 	// hand out a slice of one receive buffer: the bytes of a record are
 	// overwritten when the next Recv begins.
 	ReuseRecv bool
-	rframe    []byte
+	// LineLike makes Send refuse a message that contains a line feed, writing
+	// nothing, as channel.Line is documented to do.
+	LineLike bool
+	rframe   []byte
 	frame     []byte
 
 	sendIn, recvIn, closeIn atomic.Int32
@@ -152,6 +156,9 @@ func (c *Chan) Send(msg []byte) error {
 		c.note("Send entered while Close in progress")
 	}
 	defer c.sendIn.Add(-1)
+	if c.LineLike && bytes.IndexByte(msg, '\n') >= 0 {
+		return errors.New("message contains split byte")
+	}
 	k := int(c.nSend.Add(1))
 	cp := append([]byte(nil), msg...)
 	if c.LogSends && c.onEvent != nil {
